@@ -66,6 +66,9 @@ func main() {
 		for _, l := range ctx.Inlined {
 			fmt.Println("inlined:", l)
 		}
+		for _, l := range ctx.ConstTables {
+			fmt.Println("const table:", l)
+		}
 		for _, l := range ctx.Unrolled {
 			fmt.Println("normalised:", l)
 		}
@@ -155,13 +158,18 @@ func main() {
 	evDir := *out
 	if *noEvidence {
 		evDir, _ = os.MkdirTemp("", "ikelint-ev")
-		defer os.RemoveAll(evDir)
+	}
+	exit := func(code int) {
+		if *noEvidence {
+			os.RemoveAll(evDir) // scratch run: the replay files are not kept
+		}
+		os.Exit(code)
 	}
 	cmd := "ikelint " + strings.Join(os.Args[1:], " ")
 	oc, err := rep.Finish(*tier, seed, start, evDir, kf, cmd, nil)
 	if err != nil {
 		fmt.Println("CANNOT-DECIDE:", err)
-		os.Exit(2)
+		exit(2)
 	}
 	fmt.Printf("%s tier=%s obligations=%d violations=%d functions=%d wall=%.1fs\n", *prop, *tier, len(rep.Obls), oc.Violations, len(rep.Funcs), time.Since(start).Seconds())
 	for _, l := range oc.KnownLines {
@@ -179,7 +187,7 @@ func main() {
 	if oc.Exit == 0 && len(problems) > 0 {
 		// the analysis found no violation, but the checker itself lost sensitivity or missed a site:
 		// that is a defect of the machinery, reported as "cannot decide" rather than as a violation.
-		os.Exit(2)
+		exit(2)
 	}
-	os.Exit(oc.Exit)
+	exit(oc.Exit)
 }
